@@ -109,11 +109,11 @@ def perturbed_tree(base: Path, p: gen_project.Project, kind: str, prng: random.R
     kw: dict[str, Any] = {"environ": {}, "umask": None, "cwd": None, "api": prng.choice(["hook", "builder"])}
     n = len(p.all_files())
     order = list(range(n))
-    dirname = "proj"
+    dirname = p.meta.get("root_dirname", "proj")
     parent = base / "p"
     if kind in ("recreate", "all"):
         prng.shuffle(order)
-        dirname = prng.choice(["other place/x y", "deeper/down/the/tree/pkg", "Z", "a-b_c.d"])
+        dirname = prng.choice(["other place/x y", "deeper/down/the/tree/pkg", "Z", "a-b_c.d", "répertoire/проект"])
         parent = base / "q"
     parent.mkdir(parents=True, exist_ok=True)
     root = bc.materialise(p, order=order, parent=str(parent), dirname=dirname)
@@ -187,7 +187,7 @@ def check_case(ctx: core.Ctx, p: gen_project.Project, kind: str, sde: str | None
     key = f"{kind}|{sde!r}|{p.signature()}"
     try:
         prng = random.Random(pseed)
-        root0 = bc.materialise(p, parent=str(base / "p0"))
+        root0 = bc.materialise(p, parent=str(base / "p0"), dirname=p.meta.get("root_dirname", "proj"))
         r0 = build_both(root0, base / "out0", p, sde, {"api": "hook"})
         root1, kw = perturbed_tree(base, p, kind, prng)
         r1 = build_both(root1, base / "out1", p, sde, kw)
